@@ -217,7 +217,11 @@ class RaggedIndexedContiguousArray(RaggedArray):
                 if d < d1:
                     c = shapes[d]
                 else:
-                    c = shapes[d + 1]
+                    # The compressed dimension corresponds to three
+                    # uncompressed dimensions, so a trailing
+                    # dimension is two places further on in the
+                    # uncompressed array.
+                    c = shapes[d + 2]
 
                 c = tuple(accumulate((0,) + c))
                 c_indices.append([slice(i, j) for i, j in zip(c[:-1], c[1:])])
